@@ -841,7 +841,8 @@ def run(ctx):
                                     ("obj", "VInt"))]
             total = run_grid(ctx, cfgs, 8, 500, "C05 exhaustive single-operation grid", hist_kw=hist_args())
             run_indices(ctx, range(0, 8), 8, 1000)
-            ctx.cov["exhaustive"] = ("single operations: lengths 0-5, int indices -8..8, slices start/stop in "
+            ctx.cov["exhaustive"] = True
+            ctx.cov["exhaustive_bound"] = ("single operations: lengths 0-5, int indices -8..8, slices start/stop in "
                                      "{None,-8..8}, step in {None,+-1..+-4,0}, 9 replacement lists, 5 target/validator "
                                      "configurations: %d cases" % total)
         t1_thread.join()
